@@ -155,6 +155,8 @@ def check(run):
                    detail={"callee_zero_items_when": show_f(f_not(tg)), "caller_guard": show_f(ev.guard)})
 
     check_framing(run)
+    from . import C06
+    C06.check_always_emits(run, "R02.7")
     tables.check_mandatory(run, analyses, "R02.5")
     tables.check_index_provenance(run, "R02.6")
 
